@@ -39,7 +39,7 @@ class Partial(object):
 
     __slots__ = (
         'n', 'classes', 'viol', 'samples', 'states', 'transitions', 'traces',
-        'outcomes', 'extra',
+        'outcomes', 'extra', '_vcount',
     )
 
     def __init__(self):
@@ -52,9 +52,14 @@ class Partial(object):
         self.traces = 0           # executions run on the real implementation
         self.outcomes = {}        # outcome label -> count
         self.extra = {}           # numeric extras, summed
+        self._vcount = {}
 
     def violation(self, key, what, case):
-        if len(self.viol) < 50:
+        # keep at most 3 cases per key so that a flood of one class (e.g. a known
+        # finding) can never crowd out a different violation
+        c = self._vcount.get(key, 0)
+        self._vcount[key] = c + 1
+        if c < 3 and len(self._vcount) <= 2000:
             self.viol.append((key, what, case))
 
     def outcome(self, label, k=1):
@@ -291,6 +296,34 @@ def replay(module, path):
         return 1
     print('replay: no violation reproduced')
     return 0
+
+
+def from_pcbasic(exc):
+    """True if the innermost frame of the exception's traceback is pcbasic code
+    (then the exception is the implementation's, not the harness's)."""
+    tb = exc.__traceback__
+    last = None
+    while tb is not None:
+        last = tb.tb_frame.f_code.co_filename
+        tb = tb.tb_next
+    return bool(last) and (os.sep + 'pcbasic' + os.sep) in last
+
+
+def guarded(part, key_prefix, case, fn, *args, **kwargs):
+    """Call fn; a non-BASIC exception raised from inside pcbasic becomes a violation
+    (key_prefix/host-exception/<Type>), anything raised by harness code propagates
+    (-> CHECK-ERROR).  Returns (ok, result)."""
+    try:
+        return True, fn(*args, **kwargs)
+    except Exception as e:
+        from pcbasic.basic.base import error as _err
+        if isinstance(e, _err.Interrupt):
+            raise
+        if from_pcbasic(e):
+            part.violation('%s/host-exception/%s' % (key_prefix, type(e).__name__),
+                           '%s: %r' % (type(e).__name__, e), case)
+            return False, None
+        raise
 
 
 def chunked(seq, size):
